@@ -650,6 +650,21 @@ def accept_oracle_core(case, impl, note):
         bad = [v for v, x in dh if x is True]
         if bad:
             return "spelling %r is hidden by definition but offered although a visible spelling matches" % bad[0]
+    # behind the generated `help` subcommand the candidates are the copies `build()` hangs under it; a copy is hidden iff the
+    # user's subcommand of that name (same path from the root) is (seeded change seed4/C18-2: the copy lost its hide flag)
+    pre_toks = argv[start:index]
+    if pre_toks and pre_toks[0] == b"help" and "disable_help_subcommand" not in settings \
+            and "(sub (cmd x68656c70" not in case:       # (no user subcommand is itself called `help`, at any level)
+        user = root
+        for t in pre_toks[1:]:
+            user = find_sub(user, t) if user is not None else None
+        if user is not None and level is not user:
+            hidden_user = [v for v, _ in cands for cid in ids.get(v, [None]) if cid and cid.startswith(b"command::")
+                           and (find_sub(user, v) or {}).get("hidden")]
+            visible_any = [v for v, _ in cands if v not in hidden_user]
+            if hidden_user and visible_any:
+                return "behind `help`, %r names a subcommand hidden by definition but is offered although %r matches" % (
+                    hidden_user[0], visible_any[0])
     # ---- completeness: visible options / subcommands with a spelling extending the (well-formed) word
     if weak:
         return None
